@@ -127,7 +127,7 @@ LVisit == /\ lpc = "loop.visit"                                   \* :121-128
 
 LLaunch ==
   /\ lpc = "loop.launch"                                          \* :129-147
-  /\ IF cfg.maxActive > 0 /\ RunningCnt(status) >= cfg.maxActive
+  /\ IF cfg.maxActive > 0 /\ wg >= cfg.maxActive                  \* the limit counts the step goroutines that have not ended (wg)
        THEN Advance(status) /\ UNCHANGED <<status, wpc, wg>>
      ELSE IF cfg.pcond[li] = "unmet"
        THEN /\ status' = [status EXCEPT ![li] = SKIP] /\ Advance(status')
@@ -247,9 +247,9 @@ WPost(s) ==
             IN /\ lastErr' = (lastErr \/ (failed /\ st \notin {FIN, CANC}))
                /\ doneCnt' = [doneCnt EXCEPT ![s] = IF st1 # CANC THEN @ + 1 ELSE @]
                /\ UNCHANGED <<retry, rwait>>
-               /\ IF again                                         \* repeat: running again (also after a failed iteration), sleep
+               /\ IF again                                         \* repeat: sleep (after a failed iteration the node stays labelled failed)
                     THEN /\ wpc' = [wpc EXCEPT ![s] = "worker.repeatwake"]
-                         /\ status' = [status1 EXCEPT ![s] = IF @ = FAIL THEN RUN ELSE @] /\ UNCHANGED tails
+                         /\ status' = status1 /\ UNCHANGED tails
                   ELSE IF failed /\ cfg.doneChan                   \* done <- node; return
                     THEN /\ status' = status1 /\ ToTail(s)
                   ELSE /\ status' = FinishSection(s, status1) /\ ToTail(s)
@@ -260,8 +260,7 @@ WPost(s) ==
 WRepeatWake(s) ==
   /\ wpc[s] = "worker.repeatwake"
   /\ IF canceled
-       THEN /\ status' = [status EXCEPT ![s] = IF @ = RUN THEN (IF lastOK[s] THEN FIN ELSE FAIL) ELSE @]   \* "finish the node"
-            /\ ToTail(s)
+       THEN /\ status' = FinishSection(s, status) /\ ToTail(s)      \* "finish the node"
        ELSE /\ wpc' = [wpc EXCEPT ![s] = "worker.exec"] /\ UNCHANGED <<status, tails>>
   /\ UNCHANGED <<cfg, loopVars, retry, doneCnt, cmd, alive, sigd, res, flagVars, stopVars, histVars>>
 
